@@ -115,7 +115,7 @@ func (c *clientStream) SendMsg(m any) error {
 	select {
 	case <-c.ctx.Done():
 		return c.closeErrLocked()
-	case c.clientSend <- m:
+	case c.clientSend <- snapshot(m):
 		return nil
 	}
 }
@@ -192,7 +192,7 @@ func (s *serverStream) SendMsg(m any) error {
 	select {
 	case <-s.ctx.Done():
 		return s.closeErrLocked()
-	case s.serverSend <- m:
+	case s.serverSend <- snapshot(m):
 		return nil
 	}
 }
@@ -212,6 +212,16 @@ func (s *serverStream) RecvMsg(m any) error {
 func (s *serverStream) sendHeaderIfNeeded() {
 	// ignore error, SendHeader has no side effects if the headers have already been sent
 	_ = s.SendHeader(nil)
+}
+
+// snapshot returns a copy of the message m for handing over to the other side of the stream.
+// The receiver merges the message into its own value only after SendMsg has returned,
+// and like with gRPC (which has serialised the message by then) the sender is free to reuse or change m at that point.
+func snapshot(m any) any {
+	if pm, ok := m.(proto.Message); ok {
+		return proto.Clone(pm)
+	}
+	return m
 }
 
 // works like proto.Merge but allows messages with different descriptors by performing a marshal/unmarshal
